@@ -66,7 +66,9 @@ fn to_py(core: &Core, ind: usize) -> String {
         ),
         Core::Id { lit } => lit.clone(),
         Core::Type { lit, generics } => {
-            if generics.is_empty() {
+            // A type without a name is a list of types (the arguments of a callable): if it has no
+            // members it is the empty list, not nothing.
+            if generics.is_empty() && !lit.is_empty() {
                 lit.clone()
             } else {
                 format!("{}[{}]", lit, comma_delimited(generics, ind))
